@@ -605,6 +605,126 @@ func relOnEdge(fe *formEval, a, b poly, from, at *ssa.BasicBlock) map[string]boo
 	return out
 }
 
+// pairFlow: the relational version of enumFlow for two discriminants: the set
+// of (a, t) value pairs possible at each block, where "other" (-999) stands for
+// every value never compared.  Tests on one discriminant filter the pairs, joins
+// take the union, so `a == X` established on one path is not mixed with `t == Y`
+// established on another.
+type pairSet map[[2]int64]bool
+
+const enumOther = int64(-999)
+
+func pairFlow(f *ssa.Function, isA, isT func(v ssa.Value) bool) (map[*ssa.BasicBlock]pairSet, func(from, to *ssa.BasicBlock) pairSet) {
+	univ := func(isD func(v ssa.Value) bool) []int64 {
+		set := map[int64]bool{}
+		eachInstr(f, func(_ *ssa.BasicBlock, _ int, ins ssa.Instruction) {
+			if bo, ok := ins.(*ssa.BinOp); ok && (bo.Op == token.EQL || bo.Op == token.NEQ) {
+				if isD(bo.X) {
+					if k, ok := constInt(bo.Y); ok {
+						set[k] = true
+					}
+				} else if isD(bo.Y) {
+					if k, ok := constInt(bo.X); ok {
+						set[k] = true
+					}
+				}
+			}
+		})
+		out := []int64{enumOther}
+		for k := range set {
+			out = append(out, k)
+		}
+		return out
+	}
+	ua, ut := univ(isA), univ(isT)
+	full := pairSet{}
+	for _, a := range ua {
+		for _, t := range ut {
+			full[[2]int64{a, t}] = true
+		}
+	}
+	// the test ending block b, as a filter per successor
+	filter := func(b *ssa.BasicBlock, cur pairSet, succ int) pairSet {
+		if len(b.Instrs) == 0 || len(b.Succs) != 2 || b.Succs[0] == b.Succs[1] {
+			return cur
+		}
+		ifi, ok := b.Instrs[len(b.Instrs)-1].(*ssa.If)
+		if !ok {
+			return cur
+		}
+		bo, ok := ifi.Cond.(*ssa.BinOp)
+		if !ok || (bo.Op != token.EQL && bo.Op != token.NEQ) {
+			return cur
+		}
+		which := -1
+		var k int64
+		var have bool
+		switch {
+		case isA(bo.X):
+			which = 0
+			k, have = constInt(bo.Y)
+		case isA(bo.Y):
+			which = 0
+			k, have = constInt(bo.X)
+		case isT(bo.X):
+			which = 1
+			k, have = constInt(bo.Y)
+		case isT(bo.Y):
+			which = 1
+			k, have = constInt(bo.X)
+		}
+		if which < 0 || !have {
+			return cur
+		}
+		wantEq := (bo.Op == token.EQL) == (succ == 0)
+		out := pairSet{}
+		for p := range cur {
+			if (p[which] == k) == wantEq {
+				out[p] = true
+			}
+		}
+		return out
+	}
+	in := map[*ssa.BasicBlock]pairSet{}
+	if len(f.Blocks) == 0 {
+		return in, func(from, to *ssa.BasicBlock) pairSet { return pairSet{} }
+	}
+	in[f.Blocks[0]] = full
+	work := []*ssa.BasicBlock{f.Blocks[0]}
+	for len(work) > 0 {
+		b := work[0]
+		work = work[1:]
+		for i, s2 := range b.Succs {
+			out := filter(b, in[b], i)
+			if in[s2] == nil {
+				in[s2] = pairSet{}
+			}
+			changed := false
+			for p := range out {
+				if !in[s2][p] {
+					in[s2][p] = true
+					changed = true
+				}
+			}
+			if changed {
+				work = append(work, s2)
+			}
+		}
+	}
+	onEdge := func(from, to *ssa.BasicBlock) pairSet {
+		out := pairSet{}
+		for i, s2 := range from.Succs {
+			if s2 == to {
+				for p := range filter(from, in[from], i) {
+					out[p] = true
+				}
+			}
+		}
+		return out
+	}
+	return in, onEdge
+}
+
 // enumOnEdge refines the in-set of `from` by the branch taken towards `to`.
 func enumOnEdge(in map[*ssa.BasicBlock]enumSet, isDisc func(v ssa.Value) bool, from, to *ssa.BasicBlock) enumSet {
 	cur := in[from]
